@@ -10,11 +10,11 @@ storage server, C22); repair itself is download (C02) followed by `upload` with 
 `VCfg.asIs` is the verifier as it was before the fix, `VCfg.repaired` the verifier as it is in /repo now (fix fb3513d =
 fixes/C45-verify-block-root.diff: the block hash tree root is taken from the validated share hash leaf).
 
-As built: 14 theorems (one `_partial`) — `verified_good_implies_all_valid` (+ `verified_good_counterexample` for the old verifier),
+As built: 15 theorems (one `_partial`) — `verified_good_implies_all_valid` (+ `verified_good_counterexample` for the old verifier),
 `healthy_iff_N_good`, `recoverable_iff_k_good`, `corrupt_shares_listed`, `noverify_believes_servers`,
 `recoverable_unhealthy_repair_attempted`, `repair_uses_original_parameters`, `repair_regenerates_identical_shares`,
 `post_repair_healthy_implies_N_good`, `repair_never_alters_good_shares`, `repair_output_is_encoder_output`,
-`repaired_share_passes_ct_stage`, `readable_from_repaired_shares_partial`. Further model parts: `checkServerShares` /
+`repaired_share_passes_ct_stage`, `repaired_share_passes_block_hash_stage`, `readable_from_repaired_shares_partial`. Further model parts: `checkServerShares` /
 `checkNoVerify`, `repairDecision`, `repairParams`, `gatherRepairResults`, `corruptLocators`. Driver lean/Drv/C45.lean
 (`veup`, `fmt`, `fmtlists`, `noverify`, `verify`, `repairdecision`, `repairparams`, `postrepair`, `repair`) ties each
 of them to the code. Only partially proved (monitor end to end): that the file can be read from the repaired shares alone. -/
@@ -26,7 +26,7 @@ of them to the code. Only partially proved (monitor end to end): that the file c
 | a check is healthy exactly when N distinct good shares are found | `healthy_iff_N_good` (+ the good list is duplicate-free and is exactly the share numbers some server's result lists) |
 | … recoverable exactly when at least k are | `recoverable_iff_k_good` |
 | repair using only the verify-cap produces shares that validate under the original read-cap | `repair_uses_original_parameters` (k, N from the cap, segment size from the VALIDATED UEB — seed C45-b) + `repair_regenerates_identical_shares` (a completed repair read re-publishes exactly the original cap, UEB, trees and blocks); neither uses the read key |
-| … so the file can be read from the repaired shares alone | PARTIAL: `repair_output_is_encoder_output` (repaired shares = the uploader's shares, parameters included), `repaired_share_passes_ct_stage` (completeness of the crypttext-hash stage for such shares, C35 `tryBody_complete`), `readable_from_repaired_shares_partial` (one share set; a read over it writes only a prefix of the file and `done` ⇒ the file). Missing links named there: completeness of the share-hash / block-hash / data-block stages, decoding (`Tahoe.C36.immutable_any_k_blocks_decode_rs256`), termination (C03/C46); end to end this clause stays with the monitor (read from repaired shares only) |
+| … so the file can be read from the repaired shares alone | PARTIAL: `repair_output_is_encoder_output` (repaired shares = the uploader's shares, parameters included), `repaired_share_passes_ct_stage` and `repaired_share_passes_block_hash_stage` (completeness of the crypttext-hash and block-hash stages for such shares, C35 `tryBody_complete`), `readable_from_repaired_shares_partial` (one share set; a read over it writes only a prefix of the file and `done` ⇒ the file). Missing links named there: completeness of the share-hash and data-block stages, decoding (`Tahoe.C36.immutable_any_k_blocks_decode_rs256`), termination (C03/C46); end to end this clause stays with the monitor (read from repaired shares only) |
 | … and it never alters existing good shares | `repair_never_alters_good_shares` (abstract storage behaviour; refinement by the storage server is C22) |
 | a recoverable, unhealthy file gets a repair attempt, whatever the number of servers holding the good shares (seed C45-d) | `recoverable_unhealthy_repair_attempted` |
 | the post-repair results describe the grid after the repair (seed C45-c) | `post_repair_healthy_implies_N_good` |
@@ -203,15 +203,43 @@ theorem repaired_share_passes_ct_stage (E : Env H) (cfg : Cfg) (prm : Params) (s
     unfold firstLeafNum; omega
   exact honest_ct_hashes_accepted S.strict pick segnum v nd hk hT hlen hag hcl hL hnew hhonest
 
+/-- **repaired_share_passes_block_hash_stage** (completeness direction, block hash tree of one share): on a download
+    node that has accepted the UEB, whose block hash tree for share `shnum` is a closed partial copy of the tree the
+    repairer published for that share and does not hold the leaf of `segnum` yet, a share that answers every
+    requested block hash with the node of `Prep`'s tree — a repaired share, or an old one — passes
+    `_satisfy_block_hash_tree` (C35 completeness, `tryBody_complete`, via `honest_block_hashes_accepted`). -/
+theorem repaired_share_passes_block_hash_stage (E : Env H) (cfg : Cfg) (prm : Params) (ser : UEB H → Bytes)
+    (encode : Nat → Bytes → Nat → Bytes) (ct : Bytes) (sz : Sizes) (S : Setup E cfg prm ser encode ct sz)
+    (Prep : Published H) (hrep : Prep = upload E prm encode ser ct)
+    (pick : List Nat → Nat) (shnum segnum : Nat) (v : View H) (nd : Node H) (u : UEB H)
+    (hk : nd.known = some (u, sz))
+    (hlen : (nd.blockTree shnum sz.numSegs).length = (Prep.blockT shnum).length)
+    (hag : Agree (nd.blockTree shnum sz.numSegs) (Prep.blockT shnum)) (hcl : Closed (nd.blockTree shnum sz.numSegs))
+    (hseg : segnum < sz.numSegs)
+    (hnew : Base.Merkle.get (nd.blockTree shnum sz.numSegs) (firstLeafNum sz.numSegs + segnum) = none)
+    (hhonest : ∀ i, i < (Prep.blockT shnum).length → v.blockHashes i = Base.Merkle.get (Prep.blockT shnum) i) :
+    (stageBlockHashes E cfg pick shnum segnum v nd).1 = none := by
+  subst hrep
+  have hT : Genuine E.ops ((upload E prm encode ser ct).blockT shnum) := build_genuine E.ops _
+  have hL : firstLeafNum sz.numSegs + segnum < (nd.blockTree shnum sz.numSegs).length := by
+    rw [hlen, upload_blockT, Integrity.build_length]
+    have hbl : (blockLeaves E prm encode ct shnum).length = divCeil ct.length prm.segSize := by
+      simp [blockLeaves, segments]
+    rw [hbl, ← calcSizes_numSegs S.sizes]
+    have := roundupPow2_ge sz.numSegs
+    have := roundupPow2_pos sz.numSegs
+    unfold firstLeafNum; omega
+  exact honest_block_hashes_accepted S.strict pick shnum segnum v nd hk hT hlen hag hcl hL hnew hhonest
+
 /-- **readable_from_repaired_shares_partial**.  Full statement (NOT proved): after a repair that reports success,
     every read that is offered any k distinct shares out of the old and the repaired ones ends `done` with the
     file's bytes.  Proved here: (1) old and repaired shares are one share set of the original publication
     (`repair_output_is_encoder_output`), so every block / hash a repaired share holds is the uploader's; (2) whatever
     such a read writes is a prefix of the requested range and a read that ends `done` wrote exactly the file
     (C02 `read_prefix_correct`, for arbitrary answers, hence also for repaired shares).  Missing links, each a
-    theorem elsewhere that is not yet instantiated on this model: acceptance of honest shares by the share-hash,
-    block-hash and data-block stages (the same C35 `tryBody_complete` argument as `repaired_share_passes_ct_stage`,
-    twice more, plus the leaf checks); decoding of any k genuine blocks (`Tahoe.C36.immutable_any_k_blocks_decode_rs256`,
+    theorem elsewhere that is not yet instantiated on this model: acceptance of honest shares by the share-hash
+    and data-block stages (the same C35 `tryBody_complete` argument as `repaired_share_passes_ct_stage` and
+    `repaired_share_passes_block_hash_stage`, plus the leaf checks); decoding of any k genuine blocks (`Tahoe.C36.immutable_any_k_blocks_decode_rs256`,
     `rs256_mds`, for `decode` := zfec); termination with k good shares (C03 / C46). -/
 theorem readable_from_repaired_shares_partial (E : Env H) (cfg : Cfg) (prm : Params) (ser : UEB H → Bytes)
     (encode : Nat → Bytes → Nat → Bytes) (ct : Bytes) (sz : Sizes) (S : Setup E cfg prm ser encode ct sz)
@@ -240,6 +268,21 @@ example :
     (stageCtHashes C02.exE Cfg.asIs (fun _ => 0) 1 (C02.exHonest 1) nd).1 = none := by decide
 
 example : Closed (seed (newTree SymH 2) (SymH.raw 1)) := seed_closed 2 _
+
+/-- non-vacuity of `repaired_share_passes_block_hash_stage`: the same node (UEB accepted, block hash root of share 0
+    seeded from the validated share hash leaf, no block hash leaf yet) meets its hypotheses for share 0, segments 0
+    and 1 — and the stage accepts the honest share's block hashes; a share that withholds them makes the stage wait -/
+example :
+    let cap := (upload C02.exE C02.exPrm C02.exEncode C02.exSer C02.exCt).cap
+    let nd := (satisfy C02.exE Cfg.asIs (fun _ => 0) cap (Node.init SymH cap) 0 0
+                { C02.exHonest 0 with blockHashes := fun _ => none }).2
+    nd.known.isSome ∧ Base.Merkle.get (nd.blockTree 0 2) 0 ≠ none ∧
+    Base.Merkle.get (nd.blockTree 0 2) (firstLeafNum 2 + 0) = none ∧
+    Base.Merkle.get (nd.blockTree 0 2) (firstLeafNum 2 + 1) = none ∧
+    (stageBlockHashes C02.exE Cfg.asIs (fun _ => 0) 0 0 (C02.exHonest 0) nd).1 = none ∧
+    (stageBlockHashes C02.exE Cfg.asIs (fun _ => 0) 0 1 (C02.exHonest 0) nd).1 = none ∧
+    (stageBlockHashes C02.exE Cfg.asIs (fun _ => 0) 0 1 { C02.exHonest 0 with blockHashes := fun _ => none } nd).1
+      = some .wait := by decide
 
 /-- the regenerated share of the example verifies good under the original cap (both verifiers) -/
 example :
